@@ -102,6 +102,10 @@ func (g *inputGen) session(sess, nItems int, v1ok bool) ([]byte, []uint64) {
 			out = append(out, j...)
 		case k == 3 && g.keyRaw != nil: // unsigned frame on a signed link
 			out = append(out, uidFrame(uid, byte(i), 9, false, nil, 0)...)
+		case k == 6 && g.keyRaw != nil && g.r.Chance(1, 2):
+			// a complete frame of the other protocol version on a link that demands signatures, with the v2 marker byte inside
+			// it (sequence number 253): rejected as one unit, the authenticated frames behind it are delivered
+			out = append(out, uidFrame(uid, 0xFD, 9, true, nil, 0)...)
 		case k == 4 && g.keyRaw == nil: // an ArduPilot heartbeat from a new sender: triggers stream requests and their event
 			g.hbs++
 			out = append(out, hbFrame(byte(1+g.hbs%250), byte(1+g.hbs/250%250), 3, 0)...)
@@ -689,6 +693,9 @@ func TestC10(t *testing.T) {
 		if i%10 == 3 {
 			c10pause(rep, seed, i)
 		}
+		if i%10 == 8 {
+			c10consumerPause(rep, seed, i)
+		}
 		if rep.NViolations() > 4 {
 			break
 		}
@@ -1120,4 +1127,96 @@ func c10pause(rep *vh.Report, seed uint64, idx int) {
 		rep.Violation("what=parse-error-for-valid ep=tcp", "valid frames sent with pauses shorter than the idle timeout produced parse-error events", wit)
 	}
 	rep.Distinct("pause", idx)
+}
+
+// c10consumerPause: the application stops taking events for several idle-timeout periods (short IdleTimeout configured)
+// while a TCP peer and a custom link keep delivering, then goes on: "nothing lost or duplicated as long as the application
+// keeps receiving events" - every frame that arrived meanwhile still gets its event, in order, and the channels stay open.
+func c10consumerPause(rep *vh.Report, seed uint64, idx int) {
+	if aborted() {
+		return
+	}
+	r := vh.Sub(seed, fmt.Sprintf("c10-consumer-pause-%d", idx))
+	hookReset(r.U64(), false, false)
+	T := 50 * time.Millisecond
+	port := freeTCPPort()
+	tr := fake.NewTransport("cp")
+	node := &gomavlib.Node{Endpoints: []gomavlib.EndpointConf{gomavlib.EndpointTCPServer{Address: fmt.Sprintf("127.0.0.1:%d", port)}, gomavlib.EndpointCustom{ReadWriteCloser: tr}},
+		Dialect: testDialect, OutVersion: gomavlib.V2, OutSystemID: 80, HeartbeatDisable: true, IdleTimeout: T}
+	if err := node.Initialize(); err != nil {
+		rep.Inconclusive("C10 consumer pause: " + err.Error())
+		return
+	}
+	c := newConsumer(rep, "C10", "consumer-pause", node)
+	pauseAt := map[int64]bool{int64(8 + r.Intn(10)): true, int64(40 + r.Intn(20)): true, int64(90 + r.Intn(20)): true}
+	var pauses int32
+	c.pace = func(n int64) {
+		if pauseAt[n] {
+			atomic.AddInt32(&pauses, 1)
+			time.Sleep(4*T + time.Duration(r.Intn(int(T)))) // the consumer goroutine's own PRNG use: nobody else touches r from here on
+		}
+	}
+	conn, err := net.Dial("tcp4", fmt.Sprintf("127.0.0.1:%d", port))
+	if err != nil {
+		safeClose(rep, node)
+		return
+	}
+	defer conn.Close()
+	c.start()
+	nf := 70
+	var wantTCP, wantCustom []uint64
+	stalled := false
+	for i := 0; i < nf; i++ {
+		u1 := uint64(0x78)<<48 | uint64(idx)<<24 | uint64(i+1)
+		u2 := uint64(0x79)<<48 | uint64(idx)<<24 | uint64(i+1)
+		_ = conn.SetWriteDeadline(time.Now().Add(5 * time.Second))
+		if _, err := conn.Write(uidFrame(u1, byte(i), 4, false, nil, 0)); err != nil {
+			stalled = true
+			break
+		}
+		tr.Feed(uidFrame(u2, byte(i), 5, false, nil, 0))
+		wantTCP, wantCustom = append(wantTCP, u1), append(wantCustom, u2)
+		time.Sleep(T / 10)
+	}
+	total := len(wantTCP) + len(wantCustom)
+	waitFor(func() bool {
+		n := 0
+		for _, ci := range c.allChannels() {
+			n += len(c.snapshot(ci).UIDs)
+		}
+		return n >= total
+	}, c.nEvents, 8*T)
+	var snaps []chanInfo
+	for _, ci := range c.allChannels() {
+		snaps = append(snaps, c.snapshot(ci))
+	}
+	if !safeClose(rep, node) {
+		return
+	}
+	<-c.done
+	rep.Eval(1)
+	rep.Count("consumer_pause_scenarios", 1)
+	rep.Count("consumer_pauses_longer_than_idle_timeout", int(atomic.LoadInt32(&pauses)))
+	if stalled {
+		rep.Inconclusive("C10 consumer pause: the harness could not send (socket write timed out)")
+		return
+	}
+	for _, sn := range snaps {
+		if len(sn.UIDs) == 0 {
+			continue
+		}
+		want, ep := wantTCP, "tcp"
+		if sn.UIDs[0]>>48 == 0x79 {
+			want, ep = wantCustom, "custom"
+		}
+		wit := map[string]interface{}{"idle_timeout_ms": T.Milliseconds(), "consumer_pauses": atomic.LoadInt32(&pauses), "frames_sent": len(want), "frame_events": len(sn.UIDs), "parse_errors": sn.Parse,
+			"closed": sn.State == 2, "close_error": fmt.Sprint(sn.CloseErr), "first_got": head(sn.UIDs), "first_want": head(want)}
+		if !eqU64(sn.UIDs, want) {
+			rep.Violation("what="+classifySeq(sn.UIDs, want)+" ep="+ep, fmt.Sprintf("the application paused for longer than IdleTimeout and went on receiving: %d frame events for %d valid frames", len(sn.UIDs), len(want)), wit)
+		}
+	}
+	if len(snaps) < 2 {
+		rep.Violation("what=lost ep=consumer-pause", fmt.Sprintf("%d channels were reported open, 2 links were in use", len(snaps)), nil)
+	}
+	rep.Distinct("consumer-pause", idx)
 }
